@@ -43,7 +43,7 @@ class TLCResult:
 
 _FINAL = re.compile(r"(\d+) states generated, (\d+) distinct states found, (\d+) states left on queue")
 _DEPTH = re.compile(r"The depth of the complete state graph search is (\d+)")
-_VIOL = re.compile(r"Error: (?:Invariant|Action property|Temporal properties?) ?(\S*) (?:is|were) violated")
+_VIOL = re.compile(r"Error: (?:Invariant|Action property|Temporal propert(?:y|ies)) ?(\S*) (?:is|was|were) violated")
 _VF = re.compile(r'^<<"(VF[A-Z]+)", "(.*)">>$')
 _COV = re.compile(r"^<(\w+) line (\d+), col (\d+) to line \d+, col \d+ of module (\w+)>: (\d+):(\d+)")
 
